@@ -3,6 +3,7 @@ package main
 import (
 	"go/ast"
 	"go/token"
+	"go/types"
 	"strings"
 )
 
@@ -173,4 +174,232 @@ func (c *Ctx) ruleIndentJSONWhitespace(rule string) {
 	if n == 0 {
 		R.Unk(rule, fi.Key, P.Pos(fi.Decl), "assignment to the encoder's indent not found")
 	}
+}
+
+// R-OPTIONS-FORWARD: messages without a MessageInfo (legacy and struct-tag-only
+// children, dynamic messages below generated ones) are handled by calling back
+// into package proto with options rebuilt from the fast path's flag word. Every
+// option of the proto package has to be carried over, from the flag of the same
+// name; an option that is dropped silently changes behaviour one level below
+// such a child (maps no longer sorted under Deterministic, unknown fields kept
+// under DiscardUnknown, the recursion budget starting over at the default, …).
+var optionsForwardExceptions = map[string]string{}
+
+func (c *Ctx) ruleOptionsForward(rule string) {
+	R, P := c.R, c.P
+	R.Rule(rule, "the proto.MarshalOptions / proto.UnmarshalOptions literals returned by impl.marshalOptions.Options and impl.unmarshalOptions.Options set every option field of the struct, each either to a constant or to the receiver's flag/field of the same name; reviewed exceptions only", 8)
+	for _, key := range []string{"internal/impl.marshalOptions.Options", "internal/impl.unmarshalOptions.Options"} {
+		fi := c.need(rule, key)
+		if fi == nil {
+			continue
+		}
+		info := fi.Info()
+		var lit *ast.CompositeLit
+		walk(fi.Decl.Body, func(n ast.Node) bool {
+			if rs, ok := n.(*ast.ReturnStmt); ok && len(rs.Results) == 1 {
+				lit, _ = unparen(rs.Results[0]).(*ast.CompositeLit)
+			}
+			return true
+		})
+		if lit == nil {
+			R.Unk(rule, key, P.Pos(fi.Decl), "returned composite literal not found")
+			continue
+		}
+		st, ok := info.TypeOf(lit).Underlying().(*types.Struct)
+		if !ok {
+			R.Unk(rule, key, P.Pos(lit), "literal is not a struct")
+			continue
+		}
+		set := map[string]ast.Expr{}
+		for _, el := range lit.Elts {
+			if kv, ok := el.(*ast.KeyValueExpr); ok {
+				set[exprStr(kv.Key)] = kv.Value
+			}
+		}
+		for i := 0; i < st.NumFields(); i++ {
+			f := st.Field(i)
+			if !f.Exported() || strings.HasPrefix(namedTypeName(f.Type()), "internal/pragma.") {
+				continue
+			}
+			ck := key + " " + f.Name()
+			v, have := set[f.Name()]
+			if !have {
+				if why, ex := optionsForwardExceptions[ck]; ex {
+					R.Exempt(rule, ck, P.Pos(lit), why)
+					continue
+				}
+				R.Bad(rule, ck, P.Pos(lit), "the option "+f.Name()+" is not carried over into the options used for messages without a fast path: below a legacy, struct-tag-only or dynamic child the operation runs with the zero value of "+f.Name()+" whatever the caller asked for")
+				continue
+			}
+			if info.Types[v].Value != nil {
+				R.OK(rule, ck, P.Pos(v), "constant "+exprStr(v))
+				continue
+			}
+			name := ""
+			switch x := unparen(v).(type) {
+			case *ast.CallExpr:
+				if se, ok := x.Fun.(*ast.SelectorExpr); ok && len(x.Args) == 0 {
+					name = se.Sel.Name
+				}
+			case *ast.SelectorExpr:
+				name = x.Sel.Name
+			}
+			R.Check(strings.EqualFold(name, f.Name()), rule, ck, P.Pos(v), "from the receiver's "+name, "the option "+f.Name()+" is set from `"+exprStr(v)+"`, not from the receiver's flag of the same name")
+		}
+	}
+}
+
+// R-LEGACY-GUARD-TAGS: legacyLoadMessageDesc trusts a message's own
+// Descriptor() only if the struct "looks generated". The markers it accepts
+// have to include every struct tag by which the struct-tag loader
+// (aberrantLoadMessageDescReentrant) recognises a field of its own: a struct
+// whose only proto fields are oneof interface fields carries protobuf_oneof
+// tags only.
+func (c *Ctx) ruleLegacyGuardTags(rule string) {
+	R, P := c.R, c.P
+	R.Rule(rule, "the struct-tag keys tested by legacyLoadMessageDesc's looks-generated guard ⊇ the keys whose non-empty value makes aberrantLoadMessageDescReentrant add a field or oneof (the `if tag := f.Tag.Get(K); tag != \"\"` heads)", 1)
+	guard := c.need(rule, "internal/impl.legacyLoadMessageDesc")
+	loader := c.need(rule, "internal/impl.aberrantLoadMessageDescReentrant")
+	if guard == nil || loader == nil {
+		return
+	}
+	tagKeys := func(fi *FuncInfo, headsOnly bool) map[string]bool {
+		info := fi.Info()
+		out := map[string]bool{}
+		visit := func(n ast.Node) {
+			walkAll(n, func(m ast.Node) bool {
+				call, ok := m.(*ast.CallExpr)
+				if !ok || len(call.Args) != 1 {
+					return true
+				}
+				k := calleeKey(info, call)
+				if k == "reflect.StructTag.Get" || k == "reflect.StructTag.Lookup" {
+					if s := constantString(info.Types[call.Args[0]].Value); s != "" {
+						out[s] = true
+					}
+				}
+				return true
+			})
+		}
+		if !headsOnly {
+			visit(fi.Decl.Body)
+			return out
+		}
+		walkAll(fi.Decl.Body, func(m ast.Node) bool {
+			if is, ok := m.(*ast.IfStmt); ok && is.Init != nil {
+				visit(is.Init)
+			}
+			return true
+		})
+		return out
+	}
+	g, l := tagKeys(guard, false), tagKeys(loader, true)
+	if len(g) == 0 || len(l) == 0 {
+		R.Unk(rule, guard.Key, P.Pos(guard.Decl), "struct tag keys not found (guard "+itoa(len(g))+", loader "+itoa(len(l))+")")
+		return
+	}
+	missing := setDiff(l, g)
+	R.Check(len(missing) == 0, rule, guard.Key+" looks-generated guard", P.Pos(guard.Decl), "tests {"+strings.Join(sortedSet(g), ", ")+"}", "the guard does not test the struct tag(s) {"+strings.Join(missing, ", ")+"} by which the struct-tag loader recognises fields: a legacy generated message whose struct has only such fields (for instance only oneof interface fields) has its own Descriptor() ignored and gets a tag-derived descriptor with another full name, proto2 syntax and no parent file")
+}
+
+// R-STABLE-ELEMENT-POINTERS: the struct-tag loader links descriptors by
+// pointers to elements of the lists it is still building (`&md.L2.Fields.List[n]`
+// stored as a oneof member, `&md.L2.Oneofs.List[n]` as a containing oneof,
+// `&md.L1.Messages.List[n]` as a map field's entry message). A later append
+// that reallocates the list leaves those links pointing at stale copies. The
+// lists whose element pointers are retained have to be reserved up front
+// (make with a capacity), so that growing them never moves the elements.
+func (c *Ctx) ruleStableElementPointers(rule string) {
+	R, P := c.R, c.P
+	R.Rule(rule, "in impl's struct-tag loader every list whose element address (&X.List[i]) is stored into another descriptor (field store or append) and which is grown by append is reserved with make([]T, 0, cap) in aberrantLoadMessageDescReentrant before it grows", 3)
+	fns := []*FuncInfo{c.need(rule, "internal/impl.aberrantLoadMessageDescReentrant"), c.need(rule, "internal/impl.aberrantAppendField")}
+	if fns[0] == nil || fns[1] == nil {
+		return
+	}
+	tail := func(e ast.Expr) string { // "L2.Fields.List"
+		s := exprStr(e)
+		if i := strings.Index(s, ".L"); i >= 0 {
+			return s[i+1:]
+		}
+		return s
+	}
+	reserved := map[string]bool{}
+	walkAll(fns[0].Decl.Body, func(n ast.Node) bool {
+		as, ok := n.(*ast.AssignStmt)
+		if !ok || len(as.Lhs) != 1 || len(as.Rhs) != 1 {
+			return true
+		}
+		call, ok := unparen(as.Rhs[0]).(*ast.CallExpr)
+		if ok && exprStr(call.Fun) == "make" && len(call.Args) == 3 {
+			reserved[tail(as.Lhs[0])] = true
+		}
+		return true
+	})
+	n := 0
+	for _, fi := range fns {
+		info := fi.Info()
+		elemPtr := map[types.Object]string{} // pointer variable → list tail
+		walkAll(fi.Decl.Body, func(m ast.Node) bool {
+			as, ok := m.(*ast.AssignStmt)
+			if !ok || len(as.Lhs) != 1 || len(as.Rhs) != 1 {
+				return true
+			}
+			ue, ok := unparen(as.Rhs[0]).(*ast.UnaryExpr)
+			if !ok || ue.Op != token.AND {
+				return true
+			}
+			ie, ok := unparen(ue.X).(*ast.IndexExpr)
+			if !ok || !strings.HasSuffix(exprStr(ie.X), ".List") {
+				return true
+			}
+			if o := objOf(info, as.Lhs[0]); o != nil {
+				elemPtr[o] = tail(ie.X)
+			}
+			return true
+		})
+		retained := map[string]string{}
+		walkAll(fi.Decl.Body, func(m ast.Node) bool {
+			as, ok := m.(*ast.AssignStmt)
+			if !ok || len(as.Lhs) != 1 || len(as.Rhs) != 1 {
+				return true
+			}
+			// field store: x.F = p   (x is not p itself)
+			if id, ok := unparen(as.Rhs[0]).(*ast.Ident); ok {
+				if l, ok := elemPtr[info.Uses[id]]; ok {
+					if se, ok := unparen(as.Lhs[0]).(*ast.SelectorExpr); ok {
+						if r := rootIdent(se); r == nil || info.Uses[r] != info.Uses[id] {
+							retained[l] = P.Pos(as)
+						}
+					}
+				}
+			}
+			// append(list, p)
+			if call, ok := unparen(as.Rhs[0]).(*ast.CallExpr); ok && exprStr(call.Fun) == "append" {
+				for _, a := range call.Args[1:] {
+					if id, ok := unparen(a).(*ast.Ident); ok {
+						if l, ok := elemPtr[info.Uses[id]]; ok {
+							retained[l] = P.Pos(as)
+						}
+					}
+				}
+			}
+			return true
+		})
+		for _, l := range sortedKeysS(retained) {
+			n++
+			R.Check(reserved[l], rule, fi.Key+" retains &"+l+"[i]", retained[l], "list reserved with make(…, 0, cap)", "a pointer to an element of "+l+" is stored into another descriptor while the list is still grown by append and was not reserved up front: after a reallocation the link points at a stale copy, so a oneof's members and a field's ContainingOneof()/Message() are not the descriptors the message's own lists hand out (m.Get(m.WhichOneof(od)) panics with `mismatching field`)")
+		}
+	}
+	if n == 0 {
+		R.Unk(rule, fns[0].Key, P.Pos(fns[0].Decl), "no retained element pointer found")
+	}
+}
+
+func sortedKeysS(m map[string]string) []string {
+	var ks []string
+	for k := range m {
+		ks = append(ks, k)
+	}
+	sortStrings(ks)
+	return ks
 }
